@@ -12,6 +12,7 @@ import (
 	"context"
 	"fmt"
 	"io"
+	"math"
 	"math/rand"
 	"sync"
 
@@ -166,7 +167,7 @@ func (d *c15Dag) add(r *rand.Rand, codec uint64, v *c15Val, level int, identity 
 	data := buf.Bytes()
 	var c []byte
 	switch {
-	case identity && len(data) <= 64:
+	case identity && len(data) <= 400:
 		c = refcar.MakeCidV1(codec, 0, data)
 	case codec == 0x70 && r.Intn(3) == 0:
 		h, _ := refcar.Hash(0x12, data)
@@ -222,7 +223,12 @@ func (d *c15Dag) addLeaf(r *rand.Rand, allowIdentity bool) int {
 		}
 		return d.add(r, 0x55, &c15Val{K: 'b', B: gen.Bytes(r, sz)}, 0, false)
 	case k < 15 && allowIdentity:
-		return d.add(r, 0x55, &c15Val{K: 'b', B: gen.Bytes(r, r.Intn(30))}, 0, true)
+		sz := r.Intn(30)
+		if r.Intn(3) == 0 {
+			// digests around the point where the multihash length needs a second varint byte, and beyond
+			sz = []int{120, 126, 127, 128, 129, 200, 255, 256, 300}[r.Intn(9)]
+		}
+		return d.add(r, 0x55, &c15Val{K: 'b', B: gen.Bytes(r, sz)}, 0, true)
 	case k < 16:
 		v := &c15Val{K: 'm'}
 		for i := 0; i < 1+r.Intn(3); i++ {
@@ -624,6 +630,26 @@ func c15RefLinkLoadsFrom(d *c15Dag, from int, sel datamodel.Node, once bool, cho
 	return len(log.take()) - 1, err
 }
 
+// c15RefLoads lists the CIDs one traversal from node `from` loads (the root load included).
+func c15RefLoads(d *c15Dag, from int, sel datamodel.Node, once bool, chooser traversal.LinkTargetNodePrototypeChooser) ([][]byte, error) {
+	log := &c15Log{}
+	ls := d.linkSystem(log)
+	ls.TrustedStorage = true
+	s, err := selector.CompileSelector(sel)
+	if err != nil {
+		return nil, err
+	}
+	lnk := cidlink.Link{Cid: d.cidOf(from)}
+	np, _ := chooser(lnk, linking.LinkContext{})
+	rn, err := ls.Load(linking.LinkContext{}, lnk, np)
+	if err != nil {
+		return nil, err
+	}
+	prog := traversal.Progress{Cfg: &traversal.Config{Ctx: context.Background(), LinkSystem: ls, LinkTargetNodePrototypeChooser: chooser, LinkVisitOnlyOnce: once}}
+	err = prog.WalkAdv(rn, s, func(traversal.Progress, datamodel.Node, traversal.VisitReason) error { return nil })
+	return log.take(), err
+}
+
 func c15ResolveBudget(mode string, l int) (int64, bool) {
 	switch mode {
 	case "exact":
@@ -639,6 +665,8 @@ func c15ResolveBudget(mode string, l int) (int64, bool) {
 		return int64(l + 3), true
 	case "zero":
 		return 0, true
+	case "2^63", "max-uint64", "max-int64":
+		return math.MaxInt64, true // what is handed to the option may be larger still (budgetArg)
 	}
 	return 0, false
 }
